@@ -449,6 +449,28 @@ def c13() -> List[M]:
     ]
 
 
+def c11() -> List[M]:
+    return [
+        M("C11", "revert-fix-day-of-week-pop", S, "    days = \"\"\n    for each, dayname in zip(bits[::-1], DAY_NAMES):\n        if each == '1':\n            if len(days) > 0:\n                days += \",\"\n            days += dayname\n    return days",
+          "    daynames = list(DAY_NAMES)\n    days = \"\"\n    for each in bits[::-1]:\n        if each == '1':\n            if len(days) > 0:\n                days += \",\"\n            days += daynames[0]\n        daynames.pop(0)\n    return days", "C11.R1"),
+        M("C11", "ppv-getter-none-arithmetic", ET, "                   max(0, read_bytes4(data, 35105, 0)) +", "                   max(0, read_bytes4(data, 35105)) +", "C11.R1"),
+        M("C11", "energy-float-of-none", S, "        value = read_bytes2(data)\n        return float(value) / 10 if value is not None else None", "        value = read_bytes2(data)\n        return float(value) / 10", "C11.R1"),
+        M("C11", "ecomode-raises-keyerror", S, "            raise ValueError(f\"{self.id_}: power value {self.power} out of range.\")\n        self.on_off = read_byte(data)", "            raise KeyError(f\"{self.id_}: power value {self.power} out of range.\")\n        self.on_off = read_byte(data)", "C11.R1"),
+        M("C11", "float4-unguarded-unpack", S, "    if len(data) == 4:\n        return unpack('>f', data)[0]\n    return float(0)", "    return unpack('>f', data)[0]", "C11.R1"),
+        M("C11", "float-one-arg-round", S, "        return round(read_float4(data) / self.scale, 3)", "        return round(read_float4(data) / self.scale)", "C11.R1"),
+        M("C11", "decimal-row-scale-zero", ET, 'Decimal("power_factor", 45482, 100, "Power Factor")', 'Decimal("power_factor", 45482, 0, "Power Factor")', "C11.R1|error"),
+        M("C11", "es-dod-getter-none", ES, 'Calculated("dod", lambda data: 100 - read_bytes2(data, 32, 0), "Depth of Discharge", "%")', 'Calculated("dod", lambda data: 100 - read_bytes2(data, 32), "Depth of Discharge", "%")', "C11.R1"),
+        M("C11", "schedule-type-detect-raises-lookuperror", S, "        raise ValueError(f\"{value}: on_off value {value} out of range.\")", "        raise LookupError(f\"{value}: on_off value {value} out of range.\")", "C11.R1"),
+        M("C11", "map-response-wrong-handler", INV, "            except ValueError:\n                logger.exception(\"Error reading sensor %s.\", sensor.id_)", "            except KeyError:\n                logger.exception(\"Error reading sensor %s.\", sensor.id_)", "C11.R2"),
+        M("C11", "map-response-drops-failed-key", INV, "                logger.exception(\"Error reading sensor %s.\", sensor.id_)\n                result[sensor.id_] = None", "                logger.exception(\"Error reading sensor %s.\", sensor.id_)", "C11.R2"),
+        M("C11", "map-response-try-around-loop", INV, "        for sensor in sensors:\n            try:\n                result[sensor.id_] = sensor.read(response)\n            except ValueError:\n                logger.exception(\"Error reading sensor %s.\", sensor.id_)\n                result[sensor.id_] = None",
+          "        try:\n            for sensor in sensors:\n                result[sensor.id_] = sensor.read(response)\n        except ValueError:\n            logger.exception(\"Error reading sensors.\")", "C11.R2"),
+        M("C11", "et-settings-failure-aborts", ET, "            except (ValueError, RequestFailedException):\n                logger.exception(\"Error reading setting %s.\", setting.id_)", "            except ValueError:\n                logger.exception(\"Error reading setting %s.\", setting.id_)", "C11.R2"),
+        M("C11", "es-runtime-bypasses-map-response", ES, "        data = self._map_response(response, self.__sensors)\n        return data", "        data = {s.id_: s.read(response) for s in self.__sensors}\n        return data", "C11.R2"),
+        M("C11", "benign-map-response-catches-exception", INV, "            except ValueError:\n                logger.exception(\"Error reading sensor %s.\", sensor.id_)", "            except Exception:\n                logger.exception(\"Error reading sensor %s.\", sensor.id_)", "clean"),
+    ]
+
+
 def corpus() -> List[M]:
     out: List[M] = []
     for name, fn in sorted(globals().items()):
